@@ -354,6 +354,12 @@ func packageScenarios() []Scenario {
 		mk("pkg-openshift", "img/openshift:v1", nil, nil),
 		mk("pkg-kube99", "img/kube99:v1", nil, each),
 		mk("pkg-broken", "img/broken:v1", nil, nil),
+		// created already paused: nothing may be pulled or deployed until it is unpaused
+		{Name: "pkg-paused-start", Setup: func(w *World) {
+			p := NewPackage("p1", "img/valid:v1", nil)
+			p.Spec.Paused = true
+			w.EnvCreate(p)
+		}},
 	}
 }
 
@@ -421,6 +427,14 @@ func init() {
 						m := w.Store.Snapshot(KPK("p1"))
 						paused, _ := nestedMap(m, "spec")["paused"].(bool)
 						w.EnvSetPaused(KPK("p1"), !paused)
+					}
+				case r < 10:
+					// somebody deletes the ObjectDeployment (while the Package is paused it must not come back)
+					kd := Key{pkoGroup, "ObjectDeployment", NS, "p1"}
+					if m := w.Store.Snapshot(KPK("p1")); m != nil && w.Store.Snapshot(kd) != nil && rng.Intn(3) == 0 {
+						if paused, _ := nestedMap(m, "spec")["paused"].(bool); paused {
+							w.EnvDelete(kd, false)
+						}
 					}
 				case r < 14:
 					for _, k := range sortedKeys(w.ListedObjects()) {
